@@ -360,7 +360,7 @@ class Lexer:
                 if not is_hex(tempbuf):
                     raise CklSyntaxError(
                         f"Invalid hex escape \\x{tempbuf}",
-                        SourcePos(fname, line, column),
+                        start,
                     )
                 token += chr(int(tempbuf, 16))
                 tempbuf = ""
@@ -402,7 +402,7 @@ class Lexer:
                 if not is_hex(tempbuf):
                     raise CklSyntaxError(
                         f"Invalid hex escape \\x{tempbuf}",
-                        SourcePos(fname, line, column),
+                        start,
                     )
                 token += chr(int(tempbuf, 16))
                 tempbuf = ""
